@@ -64,7 +64,7 @@ VERIF = Path(__file__).resolve().parent.parent
 LEAN_DIR = VERIF / "lean"
 
 # properties for which the stage is active (enable only after multi-seed quick + one thorough run are green)
-GENTIE_READY: List[str] = ["C17", "C20", "C03", "C04"]
+GENTIE_READY: List[str] = ["C17", "C20", "C03", "C04", "C16"]
 
 
 
